@@ -250,8 +250,9 @@ class TypeEnv:
                     self._bind(node.target, t, force=t != UNK)
                 elif isinstance(node, ast.Assign):
                     t = self.type_of(node.value)
+                    narrowing = isinstance(node.value, ast.Call) and isinstance(node.value.func, ast.Name) and node.value.func.id == "cast" and t != UNK
                     for tg in node.targets:
-                        self._bind(tg, t)
+                        self._bind(tg, t, force=narrowing)  # x = cast(T, x) re-types x
                 elif isinstance(node, (ast.For, ast.comprehension)):
                     it = self.type_of(node.iter)
                     self._bind(node.target, self._iter_elem(node.iter, it))
